@@ -19,6 +19,7 @@ import (
 	"github.com/bio-routing/bio-rd/routingtable/adjRIBIn"
 	"github.com/bio-routing/bio-rd/routingtable/adjRIBOut"
 	"github.com/bio-routing/bio-rd/routingtable/filter"
+	"github.com/bio-routing/bio-rd/routingtable/filter/actions"
 	"github.com/bio-routing/bio-rd/routingtable/locRIB"
 	"github.com/bio-routing/bio-rd/routingtable/vrf"
 	"github.com/bio-routing/bio-rd/zzverif/vh"
@@ -265,6 +266,42 @@ func zvC25Scenarios() []zvScenario {
 			t2 := func() { ari.AddPath(p2, zvBGPPath(9, true, 0, 65009)) }
 			t3 := func() { ari.Unregister(rib) }
 			return []func(){t1, t2, t3}, func() { ari.Dump(); rib.Dump(); ari.Flush() }
+		},
+	})
+	// S10: import policy replaced by one that accepts the same paths with other attributes (the Adj-RIB-In calls
+	// LocRIB.ReplacePath) next to a client registering (initial dump), a second session doing the same on the same
+	// prefix, and table readers
+	sc = append(sc, zvScenario{
+		name: "S10 adjribin replacefilterchain(rewrite)||second session replacefilterchain(rewrite)||register+readers",
+		build: func() ([]func(), func()) {
+			v := vrf.NewUntrackedVRF("master", 0)
+			rib := locRIB.New("inet.0")
+			sa2 := zvSessionAttrs(false, false)
+			sa2.PeerIP = bnet.IPv4FromOctets(10, 0, 0, 8).Ptr()
+			ari1 := adjRIBIn.New(accept, v, zvSessionAttrs(false, false))
+			ari2 := adjRIBIn.New(accept, v, sa2)
+			ari1.Register(rib)
+			ari2.Register(rib)
+			p1 := zvPfx4(192, 0, 2, 0, 24)
+			ari1.AddPath(p1, zvBGPPath(9, true, 0, 65009))
+			ari2.AddPath(p1, zvBGPPath(8, true, 0, 65008))
+			med := func(m uint32) filter.Chain {
+				return filter.Chain{filter.NewFilter("med", []*filter.Term{filter.NewTerm("t", nil, []actions.Action{actions.NewSetMEDAction(m), actions.NewAcceptAction()})})}
+			}
+			t1 := func() { ari1.ReplaceFilterChain(med(20)) }
+			t2 := func() { ari2.ReplaceFilterChain(med(30)) }
+			t3 := func() {
+				aro := adjRIBOut.New(rib, zvSessionAttrs(true, false), accept)
+				aro.Register(&zvNullClient{})
+				rib.RegisterWithOptions(aro, routingtable.ClientOptions{MaxPaths: 2})
+				for _, r := range rib.Dump() {
+					for _, p := range r.Paths() {
+						_ = p.BGPPath.BGPPathA.MED
+					}
+				}
+				rib.ContainsPfxPath(p1, zvBGPPath(9, true, 0, 65009))
+			}
+			return []func(){t1, t2, t3}, func() { ari1.Dump(); rib.Dump() }
 		},
 	})
 	return sc
